@@ -115,8 +115,8 @@ class CategoricalBox:
 
     @levels.setter
     def levels(self, value):
-        if value is not None and set(value) != set(self.data):  # pragma: no cover
-            raise ValueError("The levels beign assigned and the levels in the data differ")
+        # The levels are compared with the data when the term is evaluated for the first time.
+        # A box is also created when new data is evaluated, where not all the levels may be present.
         self._levels = value
 
 
